@@ -19,7 +19,7 @@ SPEC = dict(
     classify=classify,
     rule=("desktop file contents of 0-9 lines drawn from: blank/whitespace lines, comments, group headers (valid and "
           "near-misses), every allowlisted key and a dozen non-allowlisted ones with valid/invalid locale suffixes, Exec= "
-          "forms (own app with/without arguments, other commands, prefixes of the app command, instance-key forms, control "
+          "forms (own app with/without arguments, the same with blanks or tabs after = and trailing blanks, other commands, prefixes of the app command, instance-key forms, control "
           "bytes), Icon= forms (${SNAP} paths with .. / . / empty segments, absolute paths, snap.<name>. theme names of this "
           "and other snaps), ${SNAP} occurrences, random bytes incl. NUL and invalid UTF-8, long lines; LF, CRLF, blank and "
           "missing final line ends; 7 snaps (with and without instance key, app named like the snap, no apps) x 36 desktop "
